@@ -32,6 +32,7 @@ type Parser struct {
 	DefineInfos         []string
 	BeforeString        string
 	eosReadCount        int
+	isFreshToken        bool
 }
 
 func New(lexer lexer.Lexer, file string) Parser {
